@@ -180,6 +180,43 @@ def check(model, rep, tier):
             'after x = 1, or a for-loop target, would otherwise be reported '
             'with the old type', {'counterexample': cex, 'formula': str(tout.f)[:300]},
             line=vn.node.lineno, witness='x = 1; x += 0.5; y = x')
+  # ... and the keys that are dropped are the scope's own qualified names: the
+  # table is keyed by QN objects, a QN never equals its string
+  pops = [c for c in ast.walk(vn.node) if isinstance(c, ast.Call) and isinstance(
+      c.func, ast.Attribute) and c.func.attr == 'pop' and core.norm(
+          c.func.value) == tout_name + '.types' and c.args]
+  bad_keys = []
+  for c in pops:
+    k = c.args[0]
+    src_ = None
+    if isinstance(k, ast.Name):
+      for lp_ in ast.walk(vn.node):
+        if isinstance(lp_, ast.For) and any(x is c for x in ast.walk(lp_)) and any(
+            isinstance(t_, ast.Name) and t_.id == k.id for t_ in ast.walk(lp_.target)):
+          src_ = tpl.xnorm(vn, lp_.iter, lp_.iter)
+          # (every definition that can reach the loop, when there are several)
+          rd_ = tpl.rdefs(vn.node)
+          seen_, todo_ = set(), [x for x in ast.walk(lp_.iter) if isinstance(x, ast.Name)]
+          at_ = lp_.iter
+          while todo_ and len(seen_) < 12:
+            nm_ = todo_.pop()
+            if nm_.id in seen_:
+              continue
+            seen_.add(nm_.id)
+            for d_ in rd_.reaching(at_, nm_.id) or []:
+              if isinstance(d_, ast.AST):
+                src_ += ' | ' + core.norm(d_)
+    else:
+      src_ = core.norm(k)
+    if src_ is None or 'str(' in src_ or 'repr(' in src_ or '.format(' in src_:
+      bad_keys.append(src_ or core.norm(k))
+  rep.check(bool(pops) and not bad_keys, 'TI-STRONG', '%s:dropped-keys-are-qualified-names'
+            % vn.site,
+            'the symbols whose stale types are dropped must be looked up under the '
+            'qualified names the scope holds: a string image of a name never matches '
+            'a key of the type table, and nothing is dropped',
+            {'key_sources': bad_keys}, line=vn.node.lineno,
+            witness='total = 0; total /= 2 -- int is still reported for total')
   join = atom('EXISTS[node.prev]') & atom('NB_OUT')
   o, cex = implies(join & ~atom('MODIFIED') & ~atom('DELETED'), tout.f)
   rep.check(o, 'TI-STRONG', '%s:untouched-symbols-kept' % vn.site,
@@ -324,6 +361,7 @@ def check(model, rep, tier):
             'reaching local function', line=vn.node.lineno)
 
   rules_df.check_change_flag(rep, 'TI-FLAG', vn, 'out')
+  rules_df.check_state_eq(model, rep, 'TI-FLAG', model.cls(TI, '_TypeMap'))
   rules_df.check_driver(model, rep, 'TI-DRIVER')
   _c05.asdl_rule(model, rep, 'TI-ASDL', [TI])
 
